@@ -8,6 +8,8 @@ From VL Require Import Prelude.PyDict Model.GetNBest Model.HighestAverages Model
      Proofs.GetNBest_proofs Proofs.QOrd Proofs.Scale_proofs Proofs.Minimax_proofs Proofs.LRScale_proofs Proofs.Schulze_proofs
      Model.Quota Model.QuotaDistributor.
 From VL Require Model.Convert Model.STV Proofs.STVScale_proofs.
+From VL Require Prelude.Sx Prelude.GDict Model.Bucklin Model.Cardinal Proofs.Scale2_proofs Proofs.Scale2Add_proofs Proofs.Scale2Bucklin_proofs
+     Proofs.Scale2PAV_proofs Proofs.Scale2Score_proofs Proofs.Scale2MJ_proofs Proofs.Scale2Complete_proofs.
 Import ListNotations.
 
 (* plurality / every rule that ends in get_n_best of exact totals *)
@@ -185,6 +187,318 @@ Example C11_schulze_example :
   schulze mono_v (candidates mono_v) 3 = [Cand 3%positive; Cand 2%positive; Cand 5%positive].
 Proof. vm_compute. split; reflexivity. Qed.
 
+(* ================================================================ second batch: the remaining modelled rules *)
+(* ranked pairs and Kemeny-Young under the k-fold pairwise dictionary: pair strengths and Kemeny scores are k-fold,
+   the sorted pair order, the locked graph and the set of best rankings (with its refusal) are unchanged *)
+Theorem C11_scale_ranked_pairs : forall (k : Z) s v n, (0 < k)%Z -> ranked_pairs s (scalez k v) n = ranked_pairs s v n.
+Proof. intros k s v n Hk. exact (Scale2_proofs.ranked_pairs_scale k Hk s v n). Qed.
+
+Theorem C11_scale_kemeny : forall (k : Z) v n, (0 < k)%Z -> kemeny (scalez k v) n = kemeny v n.
+Proof. intros k v n Hk. exact (Scale2_proofs.kemeny_scale k Hk v n). Qed.
+
+(* the ADDITIVE family: ANY converter that is an accumulating fold of per-ballot images (keys of any type), followed by
+   get_n_best.  The totals are k-fold (same keys, same order), the selection and its ties are unchanged. *)
+Theorem C11_scale_additive : forall {K B : Type} (keqb : K -> K -> bool) (k : Q) (image : B -> list (K * Q))
+    (votes : list (B * Q)) (n : nat), (0 < k)%Q ->
+  get_n_best Qle_bool (GDict.conv keqb image (map (fun bw => (fst bw, (k * snd bw)%Q)) votes)) n
+  = get_n_best Qle_bool (GDict.conv keqb image votes) n.
+Proof. intros K B keqb k image votes n Hk. exact (Scale2Add_proofs.additive_scale keqb k Hk image votes n). Qed.
+
+Theorem C11_scale_additive_totals : forall {K B : Type} (keqb : K -> K -> bool) (k : Q) (image : B -> list (K * Q))
+    (votes : list (B * Q)), (0 < k)%Q ->
+  Forall2 (fun x y : K * Q => fst x = fst y /\ (snd y == k * snd x)%Q)
+          (GDict.conv keqb image votes) (GDict.conv keqb image (map (fun bw => (fst bw, (k * snd bw)%Q)) votes)).
+Proof. intros K B keqb k image votes Hk. exact (Scale2Add_proofs.additive_totals_scale keqb k image votes). Qed.
+
+(* instances over the converter images of Model/Convert.v: first preferences (plurality on ranked ballots), approval
+   (plain, and split = satisfaction approval voting), presence counts *)
+Theorem C11_scale_additive_first_preference : forall (k : Q) (votes : list (Convert.ranked * Q)) n, (0 < k)%Q ->
+  get_n_best Qle_bool (Convert.dconv Convert.img_first (map (fun bw => (fst bw, (k * snd bw)%Q)) votes)) n
+  = get_n_best Qle_bool (Convert.dconv Convert.img_first votes) n.
+Proof. intros k votes n Hk. exact (Scale2Add_proofs.additive_scale GDict.sx_eqb k Hk Convert.img_first votes n). Qed.
+
+Theorem C11_scale_additive_approval : forall (k : Q) (split : bool) (votes : list (list C * Q)) n, (0 < k)%Q ->
+  get_n_best Qle_bool (Convert.dconv (Convert.img_approval_simple split) (map (fun bw => (fst bw, (k * snd bw)%Q)) votes)) n
+  = get_n_best Qle_bool (Convert.dconv (Convert.img_approval_simple split) votes) n.
+Proof. intros k split votes n Hk. exact (Scale2Add_proofs.additive_scale GDict.sx_eqb k Hk (Convert.img_approval_simple split) votes n). Qed.
+
+Theorem C11_scale_additive_presence : forall (k : Q) (votes : list (Convert.ranked * Q)) n, (0 < k)%Q ->
+  get_n_best Qle_bool (Convert.dconv Convert.img_presence (map (fun bw => (fst bw, (k * snd bw)%Q)) votes)) n
+  = get_n_best Qle_bool (Convert.dconv Convert.img_presence votes) n.
+Proof. intros k votes n Hk. exact (Scale2Add_proofs.additive_scale GDict.sx_eqb k Hk Convert.img_presence votes n). Qed.
+
+(* the positional rules as the library runs them (Borda, Dowdall, geometric, modified Borda, fixed-top, sequence based):
+   the number of candidates is read off the profile, a ballot with more ranks than candidates poisons the run (None) at
+   both scales alike.  [option_map] of get_n_best over the converter's optional output. *)
+Theorem C11_scale_additive_positional : forall (k : Q) (s : Convert.scorer) (votes : list (Convert.ranked * Q)) n, (0 < k)%Q ->
+  let votes' := map (fun bw : Convert.ranked * Q => (fst bw, (k * snd bw)%Q)) votes in
+  option_map (fun d => get_n_best Qle_bool d n)
+    (Convert.oconv (Convert.img_positional s (length (Convert.cands_ranked votes'))) votes')
+  = option_map (fun d => get_n_best Qle_bool d n)
+    (Convert.oconv (Convert.img_positional s (length (Convert.cands_ranked votes))) votes).
+Proof.
+  intros k s votes n Hk votes'. exact (Scale2Add_proofs.positional_scale k s votes n Hk).
+Qed.
+
+(* PreferenceAddition = Bucklin / Oklahoma (Model/Bucklin.v): every coefficient specification (list or harmonic) or
+   coefficient function, both splicing loops, with or without decoupling of shared ranks, every number of seats -
+   including the error outcomes and the Tie.reconcile refusal *)
+Theorem C11_scale_bucklin : forall (k : Q) fx (cs : Bucklin.coefspec) split (votes : list (Convert.ranked * Q)) n, (0 < k)%Q ->
+  Bucklin.pa_evaluate fx cs split (map (fun bw => (fst bw, (k * snd bw)%Q)) votes) n = Bucklin.pa_evaluate fx cs split votes n.
+Proof. intros k fx cs split votes n Hk. exact (Scale2Bucklin_proofs.pa_evaluate_scale k Hk fx cs split votes n). Qed.
+
+Theorem C11_scale_preference_addition : forall (k : Q) fx (coef : nat -> Q) split (votes : list (Convert.ranked * Q)) n, (0 < k)%Q ->
+  Bucklin.pa_eval fx coef split (map (fun bw => (fst bw, (k * snd bw)%Q)) votes) n = Bucklin.pa_eval fx coef split votes n.
+Proof. intros k fx coef split votes n Hk. exact (Scale2Bucklin_proofs.pa_eval_scale k Hk fx coef split votes n). Qed.
+
+Corollary C11_scale_bucklin_presets : forall (k : Q) fx (votes : list (Convert.ranked * Q)) n, (0 < k)%Q ->
+  Bucklin.bucklin fx (map (fun bw => (fst bw, (k * snd bw)%Q)) votes) n = Bucklin.bucklin fx votes n /\
+  Bucklin.oklahoma fx (map (fun bw => (fst bw, (k * snd bw)%Q)) votes) n = Bucklin.oklahoma fx votes n.
+Proof. intros k fx votes n Hk. split; apply C11_scale_preference_addition; exact Hk. Qed.
+
+(* PAV: the set of satisfaction-maximising committees, hence the refusal when it is not a singleton, and the order of
+   the elected by satisfaction drop; SPAV: every round leader and every tie refusal *)
+Theorem C11_scale_pav : forall (k : Q) (votes : Cardinal.aprofile) n, (0 < k)%Q ->
+  Cardinal.pav (map (fun bw => (fst bw, (k * snd bw)%Q)) votes) n = Cardinal.pav votes n.
+Proof. intros k votes n Hk. exact (Scale2PAV_proofs.pav_scale k Hk votes n). Qed.
+
+Theorem C11_scale_pav_best : forall (k : Q) (votes : Cardinal.aprofile) cands n, (0 < k)%Q ->
+  Cardinal.pav_best (map (fun bw => (fst bw, (k * snd bw)%Q)) votes) cands n = Cardinal.pav_best votes cands n.
+Proof. intros k votes cands n Hk. exact (Scale2PAV_proofs.pav_best_scale k Hk votes cands n). Qed.
+
+Theorem C11_scale_spav : forall (k : Q) (votes : Cardinal.aprofile) n, (0 < k)%Q ->
+  Cardinal.spav (map (fun bw => (fst bw, (k * snd bw)%Q)) votes) n = Cardinal.spav votes n.
+Proof. intros k votes n Hk. exact (Scale2PAV_proofs.spav_scale k Hk votes n). Qed.
+
+(* ---- score voting (ScoreToSimpleVotes + get_n_best).  Score profiles carry integer ballot counts; the factor is a
+   positive integer.  Scale-free configurations (Scale2Score_proofs.scale_free_cfg): min_count = 0 and either no
+   truncation (<= 0) or a truncation FRACTION in (0, 1) that cuts a whole number of votes
+   (floor (n_votes * t) = n_votes * t); any aggregate (mean, sum, low median), any unscored_value (none / constant / min). *)
+Definition C11_score_scale_free (cf : Cardinal.score_cfg) (votes : Cardinal.sprofile) : Prop :=
+  let n_votes := fold_left Z.add (map snd votes) 0%Z in
+  Cardinal.sc_min_count cf = 0%Z /\
+  (Qle_bool (Cardinal.sc_trunc cf) 0 = true \/
+   (Qle_bool 1 (Cardinal.sc_trunc cf) = false /\ n_votes <> 0%Z /\
+    (inject_Z (Qround.Qfloor (inject_Z n_votes * Cardinal.sc_trunc cf)) == inject_Z n_votes * Cardinal.sc_trunc cf)%Q)).
+
+Theorem C11_scale_score_voting : forall (k : Z) (cf : Cardinal.score_cfg) (votes : Cardinal.sprofile) n, (0 < k)%Z ->
+  C11_score_scale_free cf votes ->
+  Cardinal.score_voting cf (map (fun bn => (fst bn, (k * snd bn)%Z)) votes) n = Cardinal.score_voting cf votes n.
+Proof.
+  intros k cf votes n Hk Hcf.
+  exact (Scale2Score_proofs.score_voting_scale k Hk cf votes n (Scale2Score_proofs.scale_free_cfg_ok k cf votes Hk Hcf)).
+Qed.
+
+(* the aggregated scores themselves: identical keys and order; mean and low median are unchanged, the sum is k-fold *)
+Theorem C11_scale_score_totals : forall (k : Z) (cf : Cardinal.score_cfg) (votes : Cardinal.sprofile), (0 < k)%Z ->
+  C11_score_scale_free cf votes ->
+  match Cardinal.score_to_simple cf votes, Cardinal.score_to_simple cf (map (fun bn => (fst bn, (k * snd bn)%Z)) votes) with
+  | inl a, inl a' => Forall2 (fun x y : C * Q => fst x = fst y /\
+                       (snd y == (match Cardinal.sc_fn cf with Cardinal.FSum => inject_Z k | _ => 1 end) * snd x)%Q) a a'
+  | inr e, inr e' => e = e'
+  | _, _ => False
+  end.
+Proof.
+  intros k cf votes Hk Hcf.
+  pose proof (Scale2Score_proofs.score_to_simple_rel k Hk cf votes _ (Scale2Score_proofs.scale_free_cfg_ok k cf votes Hk Hcf)
+                (Scale2Score_proofs.sprel_scale k votes)) as H.
+  unfold Scale2Score_proofs.sumrel in H.
+  destruct (Cardinal.score_to_simple cf votes), (Cardinal.score_to_simple cf _); exact H.
+Qed.
+
+(* the three configurations outside [C11_score_scale_free] are genuinely not scale-free (factor 2, mean aggregate; the
+   implementation returns the same pairs of winners): a positive min_count is an absolute number of votes ... *)
+Theorem C11_scale_score_min_count_refuted : exists votes,
+  let cf := Cardinal.Build_score_cfg Cardinal.FMean Cardinal.UNone 2 0 0 in
+  Cardinal.score_voting cf votes 1 = inl [Cand 2%positive] /\
+  Cardinal.score_voting cf (map (fun bn => (fst bn, (2 * snd bn)%Z)) votes) 1 = inl [Cand 1%positive].
+Proof. exists [([(1%positive, 5%Q)], 1%Z); ([(2%positive, 1%Q)], 2%Z)]. vm_compute. split; reflexivity. Qed.
+
+(* ... so is a truncation given as a COUNT (>= 1): one vote cut at each end of 5, and of 10 ... *)
+Theorem C11_scale_score_truncation_count_refuted : exists votes,
+  let cf := Cardinal.Build_score_cfg Cardinal.FMean Cardinal.UNone 0 1 0 in
+  Cardinal.score_voting cf votes 1 = inl [Cand 2%positive] /\
+  Cardinal.score_voting cf (map (fun bn => (fst bn, (2 * snd bn)%Z)) votes) 1 = inl [Cand 1%positive].
+Proof.
+  exists [([(1%positive, 0%Q); (2%positive, 2%Q)], 1%Z); ([(1%positive, 1%Q); (2%positive, 2%Q)], 2%Z);
+          ([(1%positive, 3%Q); (2%positive, 2%Q)], 1%Z); ([(1%positive, 10%Q); (2%positive, 2%Q)], 1%Z)].
+  vm_compute. split; reflexivity.
+Qed.
+
+(* ... and a truncation FRACTION that does not cut a whole number of votes: 3/10 of 5 votes cuts int(1.5) = 1 at each
+   end, 3/10 of 10 votes cuts 3 - proportionally more (means 50/3 vs 15 against a constant 16) *)
+Theorem C11_scale_score_truncation_fraction_refuted : exists votes,
+  let cf := Cardinal.Build_score_cfg Cardinal.FMean Cardinal.UNone 0 (3 # 10) 0 in
+  Cardinal.score_voting cf votes 1 = inl [Cand 1%positive] /\
+  Cardinal.score_voting cf (map (fun bn => (fst bn, (2 * snd bn)%Z)) votes) 1 = inl [Cand 2%positive].
+Proof.
+  exists [([(1%positive, 0%Q); (2%positive, 16%Q)], 1%Z); ([(1%positive, 10%Q); (2%positive, 16%Q)], 2%Z);
+          ([(1%positive, 30%Q); (2%positive, 16%Q)], 1%Z); ([(1%positive, 100%Q); (2%positive, 16%Q)], 1%Z)].
+  vm_compute. split; reflexivity.
+Qed.
+
+(* ---- majority judgment.  The first stage (corrected scores, low medians, the order and whether / among whom a tie has
+   to be broken) is scale-free in the same configurations; the PLUS tie-break (share of scores at or above the shared
+   median) is scale-free, so majority judgment with it is: *)
+Theorem C11_scale_mj_plus : forall (k : Z) (cf : Cardinal.score_cfg) (votes : Cardinal.sprofile) n, (0 < k)%Z ->
+  C11_score_scale_free cf votes ->
+  Cardinal.majority_judgment true cf (map (fun bn => (fst bn, (k * snd bn)%Z)) votes) n = Cardinal.majority_judgment true cf votes n.
+Proof.
+  intros k cf votes n Hk Hcf.
+  exact (Scale2Score_proofs.mj_plus_scale k Hk cf votes n (Scale2Score_proofs.scale_free_cfg_ok k cf votes Hk Hcf)).
+Qed.
+
+(* with either rule, whenever the medians decide (no tie at the cut) - and whether they decide is itself scale-free *)
+Theorem C11_scale_mj_tie_free : forall (k : Z) plus (cf : Cardinal.score_cfg) (votes : Cardinal.sprofile) n, (0 < k)%Z ->
+  C11_score_scale_free cf votes ->
+  let votes' := map (fun bn : Convert.sballot * Z => (fst bn, (k * snd bn)%Z)) votes in
+  Scale2Score_proofs.mj_tie_free cf votes' n = Scale2Score_proofs.mj_tie_free cf votes n /\
+  (Scale2Score_proofs.mj_tie_free cf votes n = true ->
+   Cardinal.majority_judgment plus cf votes' n = Cardinal.majority_judgment plus cf votes n).
+Proof.
+  intros k plus cf votes n Hk Hcf votes'. pose proof (Scale2Score_proofs.scale_free_cfg_ok k cf votes Hk Hcf) as Hok. split.
+  - exact (Scale2Score_proofs.mj_tie_free_scale_iff k Hk cf votes n Hok).
+  - intros Hfree. exact (Scale2Score_proofs.mj_tie_free_scale k Hk plus cf votes n Hok Hfree).
+Qed.
+
+(* the DEFAULT tie-break (repeated removal of median scores): majority judgment with it is scale-free as soon as the
+   tie-breaking routine itself is, on k-fold score dictionaries (same candidates, same scores, every count k-fold) *)
+Theorem C11_scale_mj_default_reduction : forall (k : Z) (cf : Cardinal.score_cfg) (votes : Cardinal.sprofile) n, (0 < k)%Z ->
+  C11_score_scale_free cf votes ->
+  (forall sub sub' j,
+     Forall2 (fun x y : C * Cardinal.cscores => fst x = fst y /\
+                Forall2 (fun s t : Q * Z => fst s = fst t /\ snd t = (k * snd s)%Z) (snd x) (snd y)) sub sub' ->
+     Cardinal.mj_default (Scale2Score_proofs.mj_fuel sub') sub' j = Cardinal.mj_default (Scale2Score_proofs.mj_fuel sub) sub j) ->
+  Cardinal.majority_judgment false cf (map (fun bn => (fst bn, (k * snd bn)%Z)) votes) n = Cardinal.majority_judgment false cf votes n.
+Proof.
+  intros k cf votes n Hk Hcf Hdef.
+  apply (Scale2Score_proofs.majority_judgment_rel k Hk false cf votes _ n (Scale2Score_proofs.scale_free_cfg_ok k cf votes Hk Hcf)
+           (Scale2Score_proofs.sprel_scale k votes)).
+  intros _ sc tied sub' j _ Hs. exact (Hdef _ sub' j Hs).
+Qed.
+
+(* ... which it is NOT on partial ballots (known finding C11-mj-default-scale): the median removal takes the same number
+   of scores from every level candidate, so a candidate scored by fewer voters can run out of scores at one scale
+   (StatisticsError) and not at another.  {A:1,B:0,C:0} x3, {C:1} x3, {C:0} x2, two seats: error at k = 1, [A; C] at k = 2, 3
+   (the implementation: StatisticsError / ['A', 'C'] / ['A', 'C']) *)
+Theorem C11_scale_mj_default_partial_ballots_refuted : exists votes,
+  let cf := Cardinal.Build_score_cfg Cardinal.FMedianLow Cardinal.UNone 0 0 0 in
+  Cardinal.majority_judgment false cf votes 2 = inr Cardinal.SE_stats /\
+  Cardinal.majority_judgment false cf (map (fun bn => (fst bn, (2 * snd bn)%Z)) votes) 2 = inl [Cand 1%positive; Cand 3%positive] /\
+  Cardinal.majority_judgment false cf (map (fun bn => (fst bn, (3 * snd bn)%Z)) votes) 2 = inl [Cand 1%positive; Cand 3%positive].
+Proof.
+  exists [([(1%positive, 1%Q); (2%positive, 0%Q); (3%positive, 0%Q)], 3%Z); ([(3%positive, 1%Q)], 3%Z); ([(3%positive, 0%Q)], 2%Z)].
+  vm_compute. repeat split; reflexivity.
+Qed.
+
+(* On BALANCED score dictionaries - every candidate has the same number of (corrected) scores, the counts are
+   nonnegative and the scores of a candidate pairwise different - the default rule IS scale-free.  The removal step
+   max(1, min_c min(ceil(lower - T/2), ceil(T/2 - upper))) is not homogeneous, so the k-fold run is not the k-fold of
+   the original run; the proof (Scale2MJ_proofs.v) goes through a one-score-at-a-time normal form of the loop:
+   mj_default with its fuel equals it (a block of removals never passes the first change of a median), the normal
+   form of the k-fold election follows the one of the original election (each original removal is matched by k
+   removals, k - 1 of which find every candidate still level), and it is deterministic. *)
+Theorem C11_scale_mj_default_balanced : forall (k : Z) (cf : Cardinal.score_cfg) (votes : Cardinal.sprofile) n, (0 < k)%Z ->
+  C11_score_scale_free cf votes ->
+  (forall sc, Cardinal.corrected_scores cf votes = inl sc -> exists T, Scale2MJ_proofs.Inv sc T) ->
+  Cardinal.majority_judgment false cf (map (fun bn => (fst bn, (k * snd bn)%Z)) votes) n = Cardinal.majority_judgment false cf votes n.
+Proof.
+  intros k cf votes n Hk Hcf Hbal.
+  exact (Scale2MJ_proofs.mj_default_scale k Hk cf votes n (Scale2Score_proofs.scale_free_cfg_ok k cf votes Hk Hcf) Hbal).
+Qed.
+
+(* complete ballots (every ballot scores every candidate exactly once, positive counts), min_count = 0, no truncation,
+   any unscored_value: the corrected dictionaries are balanced, hence the clause as it was stated before it was proved *)
+Definition C11_complete_ballots (votes : Cardinal.sprofile) : Prop :=
+  forall b n, In (b, n) votes -> (0 < n)%Z /\ NoDup (map fst b) /\
+    forall c, In c (flat_map (fun bn : Convert.sballot * Z => map fst (fst bn)) votes) -> In c (map fst b).
+Definition C11_scale_mj_default_full_statement : Prop :=
+  forall (k : Z) (cf : Cardinal.score_cfg) (votes : Cardinal.sprofile) n, (0 < k)%Z ->
+    Cardinal.sc_min_count cf = 0%Z -> Qle_bool (Cardinal.sc_trunc cf) 0 = true -> C11_complete_ballots votes ->
+    Cardinal.majority_judgment false cf (map (fun bn => (fst bn, (k * snd bn)%Z)) votes) n = Cardinal.majority_judgment false cf votes n.
+Theorem C11_scale_mj_default_full : C11_scale_mj_default_full_statement.
+Proof.
+  intros k cf votes n Hk Hmc Htr Hc. apply (C11_scale_mj_default_balanced k cf votes n Hk).
+  - split; [exact Hmc|left; exact Htr].
+  - intros sc Hsc. exists (Scale2Score_proofs.sp_total votes).
+    exact (Scale2Complete_proofs.complete_balanced cf votes sc Hmc Htr Hc Hsc).
+Qed.
+
+(* ---- non-vacuity of the second batch *)
+Example C11_ranked_pairs_kemeny_example :
+  ranked_pairs Margins (scalez 1000000000000000000000000000007 mono_v) 3 = ranked_pairs Margins mono_v 3 /\
+  (exists r, ranked_pairs Margins mono_v 3 = CR_ok r /\ length r = 3%nat) /\
+  kemeny (scalez 1000000000000000000000000000007 mono_v) 2 = kemeny mono_v 2 /\
+  (exists r, kemeny mono_v 2 = CR_ok r /\ length r = 2%nat).
+Proof. vm_compute. repeat split; try reflexivity; eexists; split; reflexivity. Qed.
+
+Definition C11_ranked_example : list (Convert.ranked * Q) :=
+  let a := 1%positive in let b := 2%positive in let c := 3%positive in let d := 4%positive in
+  [([Convert.IP a; Convert.IP b; Convert.IP c], 4); ([Convert.IP b; Convert.IS [a; c]; Convert.IP d], 3 # 2);
+   ([Convert.IP c; Convert.IP b], 5 # 2); ([Convert.IP d; Convert.IP c; Convert.IP b; Convert.IP a], 3)]%Q.
+
+(* Borda on the example: the tie for the seat between the exact totals 82/4 and 82/4 of B and C is reported on the
+   votes scaled by (10^30 + 7) / 3 as well; Bucklin with decoupled shared ranks elects by the scaled majority threshold *)
+Example C11_additive_bucklin_example :
+  let votes' := map (fun bw : Convert.ranked * Q => (fst bw, ((1000000000000000000000000000007 # 3) * snd bw)%Q)) C11_ranked_example in
+  option_map (fun d => get_n_best Qle_bool d 1)
+    (Convert.oconv (Convert.img_positional (Convert.Borda 0) (length (Convert.cands_ranked votes'))) votes')
+  = Some [TieR [Sx.A 2; Sx.A 3]] /\
+  option_map (fun d => get_n_best Qle_bool d 1)
+    (Convert.oconv (Convert.img_positional (Convert.Borda 0) (length (Convert.cands_ranked C11_ranked_example))) C11_ranked_example)
+  = Some [TieR [Sx.A 2; Sx.A 3]] /\
+  Bucklin.bucklin true votes' 2 = Bucklin.PA_ok [Cand 2%positive; Cand 3%positive] /\
+  Bucklin.bucklin true C11_ranked_example 2 = Bucklin.PA_ok [Cand 2%positive; Cand 3%positive].
+Proof. vm_compute. repeat split; reflexivity. Qed.
+
+(* PAV / SPAV at (10^30 + 7) / 3: a unique optimal committee, and an exactly tied pair of committees that is refused *)
+Example C11_pav_example :
+  let a := 1%positive in let b := 2%positive in let c := 3%positive in
+  let sc (v : Cardinal.aprofile) := map (fun bw : list C * Q => (fst bw, ((1000000000000000000000000000007 # 3) * snd bw)%Q)) v in
+  let v1 : Cardinal.aprofile := [([a; b], 3); ([a; c], 2); ([c], 2)]%Q in
+  let v2 : Cardinal.aprofile := [([a; b], 3); ([c], 3)]%Q in
+  Cardinal.pav (sc v1) 2 = Cardinal.AR_ok [Cand a; Cand c] /\ Cardinal.pav v1 2 = Cardinal.AR_ok [Cand a; Cand c] /\
+  Cardinal.pav (sc v2) 2 = Cardinal.AR_nie /\ Cardinal.pav v2 2 = Cardinal.AR_nie /\
+  Cardinal.spav (sc v1) 2 = Some [a; c] /\ Cardinal.spav v1 2 = Some [a; c] /\
+  Cardinal.spav (sc v2) 2 = None /\ Cardinal.spav v2 2 = None.
+Proof. vm_compute. repeat split; reflexivity. Qed.
+
+Definition C11_score_example : Cardinal.sprofile :=
+  let a := 1%positive in let b := 2%positive in let c := 3%positive in
+  [([(a, 3); (b, 3); (c, 1)], 2%Z); ([(a, 1); (b, 2); (c, 3)], 1%Z); ([(a, 3); (b, 3); (c, 3)], 2%Z);
+   ([(a, 0); (b, 1); (c, 3)], 2%Z); ([(a, 4); (b, 3); (c, 3)], 1%Z)]%Q.
+
+(* a truncated mean that is covered: 1/4 of 8 votes is a whole number of votes *)
+Example C11_score_example_covered :
+  C11_score_scale_free (Cardinal.Build_score_cfg Cardinal.FMean Cardinal.UMin 0 (1 # 4) 0) C11_score_example /\
+  C11_score_scale_free (Cardinal.Build_score_cfg Cardinal.FSum (Cardinal.UConst 0) 0 0 0) C11_score_example.
+Proof.
+  split; (split; [reflexivity|]); [right|left; reflexivity].
+  split; [reflexivity|]. split; [discriminate|]. vm_compute. reflexivity.
+Qed.
+
+(* all three candidates share the median 3: the default tie-break runs (several removal rounds) and gives the same
+   answer at k = 1, 2, 3, 7, for one and for two seats; the example profile consists of complete ballots *)
+Example C11_mj_default_example :
+  let cf := Cardinal.Build_score_cfg Cardinal.FMedianLow Cardinal.UNone 0 0 0 in
+  let sc k := map (fun bn : Convert.sballot * Z => (fst bn, (k * snd bn)%Z)) C11_score_example in
+  Scale2Score_proofs.mj_tie_free cf C11_score_example 1 = false /\
+  Cardinal.majority_judgment false cf C11_score_example 1 = inl [Cand 3%positive] /\
+  Cardinal.majority_judgment false cf (sc 2%Z) 1 = inl [Cand 3%positive] /\
+  Cardinal.majority_judgment false cf (sc 3%Z) 1 = inl [Cand 3%positive] /\
+  Cardinal.majority_judgment false cf (sc 7%Z) 1 = inl [Cand 3%positive] /\
+  Cardinal.majority_judgment false cf C11_score_example 2 = inl [Cand 3%positive; Cand 2%positive] /\
+  Cardinal.majority_judgment false cf (sc 2%Z) 2 = inl [Cand 3%positive; Cand 2%positive] /\
+  Cardinal.majority_judgment false cf (sc 7%Z) 2 = inl [Cand 3%positive; Cand 2%positive].
+Proof. vm_compute. repeat split; reflexivity. Qed.
+
+Example C11_mj_default_example_complete : C11_complete_ballots C11_score_example.
+Proof.
+  intros b n Hin. unfold C11_score_example in Hin. cbn [In] in Hin.
+  repeat (destruct Hin as [Hin|Hin]; [injection Hin as <- <-; split; [reflexivity|]; split;
+    [repeat constructor; cbn; intuition discriminate|cbn; intuition]|]). destruct Hin.
+Qed.
+
 Print Assumptions C11_scale_plurality.
 Print Assumptions C11_scale_highest_averages.
 Print Assumptions C11_scale_pairwise_wins.
@@ -203,3 +517,28 @@ Print Assumptions C11_stv_droop_not_scale_free.
 Print Assumptions C11_scale_schulze_paths.
 Print Assumptions C11_scale_schulze.
 Print Assumptions C11_scale_full.
+Print Assumptions C11_scale_ranked_pairs.
+Print Assumptions C11_scale_kemeny.
+Print Assumptions C11_scale_additive.
+Print Assumptions C11_scale_additive_totals.
+Print Assumptions C11_scale_additive_first_preference.
+Print Assumptions C11_scale_additive_approval.
+Print Assumptions C11_scale_additive_presence.
+Print Assumptions C11_scale_additive_positional.
+Print Assumptions C11_scale_bucklin.
+Print Assumptions C11_scale_preference_addition.
+Print Assumptions C11_scale_bucklin_presets.
+Print Assumptions C11_scale_pav.
+Print Assumptions C11_scale_pav_best.
+Print Assumptions C11_scale_spav.
+Print Assumptions C11_scale_score_voting.
+Print Assumptions C11_scale_score_totals.
+Print Assumptions C11_scale_score_min_count_refuted.
+Print Assumptions C11_scale_score_truncation_count_refuted.
+Print Assumptions C11_scale_score_truncation_fraction_refuted.
+Print Assumptions C11_scale_mj_plus.
+Print Assumptions C11_scale_mj_tie_free.
+Print Assumptions C11_scale_mj_default_reduction.
+Print Assumptions C11_scale_mj_default_partial_ballots_refuted.
+Print Assumptions C11_scale_mj_default_balanced.
+Print Assumptions C11_scale_mj_default_full.
